@@ -567,7 +567,7 @@ impl Prop for C11 {
         "fault_enumeration"
     }
     fn rule(&self, ctx: &Ctx) -> String {
-        format!("fault = abort or body drop. (1) sequential, exhaustive: every op sequence of length 0..={} over the C08 alphabet for chunk sizes {{1,2,3,4,7}}, the fault inserted at every position, followed by write(1), flush, write(c), poll-until-pending; raw and gzip levels 1 and 6. (2) interleaved: every producer program of <= {} operations containing abort under the C10 scheduler (all schedules up to a cap), random programs with the consumer dropping the body after k polls, free-running stress. (3) memory: >= 1 MiB queued, body dropped, live heap of the thread (counting allocator) must fall by >= 90% after one writer operation and stay bounded over 1000 further chunk writes. Non-trivial = distinct history/schedule containing the fault and judged",
+        format!("fault = abort or body drop. (1) sequential, exhaustive: every op sequence of length 0..={} over the write/write_all/flush/poll alphabet of C08 plus two write_vectored calls, for chunk sizes {{1,2,3,4,7}}, the fault inserted at every position, followed by write(1), flush, write(c), poll-until-pending; raw and gzip levels 1 and 6. (2) interleaved: every producer program of <= {} operations containing abort under the C10 scheduler (all schedules up to a cap), random programs with the consumer dropping the body after k polls, free-running stress. (3) memory: >= 1 MiB queued, body dropped, live heap of the thread (counting allocator) must fall by >= 90% after one writer operation and stay bounded over 1000 further chunk writes. Non-trivial = distinct history/schedule containing the fault and judged",
             if thorough(ctx) { 4 } else { 3 }, if thorough(ctx) { 3 } else { 2 })
     }
     fn n_blocks(&self, ctx: &Ctx) -> usize {
